@@ -167,7 +167,10 @@ def exec_case(p, res):
         err = gen.fro(qd - ref)
         nr = gen.fro(ref)
         ratio = err / max(nr, 1e-300) / u
-        if not err <= 50 * u * nr * len(p['N']):
+        rep = 1.0      # roundoff is relative to the magnitude of the representation (chains of rank>1 cores cancel)
+        for c_ in x.cores:
+            rep *= gen.fro(c_)
+        if not err <= 50 * u * max(nr, rep / abs(s)) * len(p['N']):
             out.append(core.violation(PROP, 'SCALAR-EXACT', api, 'value', 'x/scalar differs from the dense quotient by %.3g relative' % (err / max(nr, 1e-300)), desc))
         return out, None
     target = gen.dense(x) if api != 'rdiv' else torch.full_like(qd, float(scalar_of(p)))
